@@ -1297,7 +1297,10 @@ theorem gqEvalGo_eq_gqGo (f : α → α) (rtol c d : α) (rules : List (List (α
   induction rules generalizing order old nv with
   | nil => simp [gqEvalGo, gqGo]
   | cons r rs ih =>
-    have hr : r.length = order := by simpa using hlen 0 (by simp)
+    have hr : r.length = order := by
+      have := hlen 0 (by simp)
+      simp only [List.getElem_cons_zero] at this
+      omega
     have hrs : ∀ i (h : i < rs.length), (rs[i]).length = order + 1 + i := by
       intro i h
       have := hlen (i + 1) (by simp; omega)
